@@ -337,7 +337,7 @@ func TestCheck(t *testing.T) {
 			idx = append(idx, i)
 		}
 	}
-	rej, res := tv.Validate(tlc.Opts{Dir: "CtxPool", Module: "TracePool", Config: "TracePool.cfg", Workers: 16, Timeout: ev.Pick(6*time.Minute, 40*time.Minute), HeapMB: 12000}, jb)
+	rej, res := tv.ValidateChunked(tlc.Opts{Dir: "CtxPool", Module: "TracePool", Config: "TracePool.cfg", Workers: 16, Timeout: ev.Pick(6*time.Minute, 40*time.Minute), HeapMB: 12000}, jb)
 	fmt.Printf("TLC contract validation: ok=%v traces=%d rejected=%d distinct=%d wall=%s %s\n", res.OK, jb.Len(), len(rej), res.Distinct, res.Wall.Round(time.Millisecond), res.What)
 	if !res.OK {
 		e.Inconclusive("trace validation did not run: " + res.What + res.Tail(1500))
@@ -378,7 +378,7 @@ func selfTest(e *ev.Evidence) {
 	mk(false, 0)
 	mk(true, 0)  // done while member 2 is live
 	mk(false, 1) // Size not zero after Cancel
-	rej, res := tv.Validate(tlc.Opts{Dir: "CtxPool", Module: "TracePool", Config: "TracePool.cfg", Workers: 2, Timeout: 2 * time.Minute}, b)
+	rej, res := tv.ValidateChunked(tlc.Opts{Dir: "CtxPool", Module: "TracePool", Config: "TracePool.cfg", Workers: 2, Timeout: 2 * time.Minute}, b)
 	got := map[int]bool{}
 	for _, r := range rej {
 		got[r.Trace] = true
